@@ -779,9 +779,9 @@ def large_spec(r, dim, kind):
     if kind in ("cov", "prec"):
         val = banded(r, dim, True); D = val
     elif kind == "sqrtprec":
-        val = banded(r, dim, False); val = np.diag(np.diag(val)) + 0.5 * (val - np.diag(np.diag(val))); D = val.T @ val
+        val = banded(r, dim, False); val = np.diag(np.diag(val)) + 0.25 * (val - np.diag(np.diag(val))); D = val.T @ val
     else:
-        val = banded(r, dim, True); val = np.diag(np.diag(val)) + 0.5 * (val - np.diag(np.diag(val)))
+        val = banded(r, dim, True); val = np.diag(np.diag(val)) + 0.25 * (val - np.diag(np.diag(val)))
         D = val.T @ val     # symmetric: S Sᵀ = Sᵀ S
     return {"kind": kind, "shape": "full", "value": val, "tag": f"{kind}-dense{dim}",
             "doc_prec": np.linalg.inv(D) if kind in ("cov", "sqrtcov") else D}
@@ -865,90 +865,177 @@ def logd_oracle(ctx, key, desc, post, m_impl, B_impl, r):
         ctx.note(f"logd oracle not applicable at {key}: {repr(ex)[:100]}")
 
 
+def obj_value(sp):
+    """the object handed to the constructor / setter: the dense value, or a scipy.sparse matrix with the same numbers"""
+    if sp.get("sparse"):
+        import scipy.sparse as spa
+        return spa.csr_matrix(sp["value"])
+    return sp["value"]
+
+
+def history_spec(r, dim, kind):
+    """a specification of the given kind in a random storage form: scalar / vector / diagonal / full / scipy.sparse"""
+    form = ["scalar", "vector", "diag", "full", "sparse-diag", "sparse-band"][r.randint(6)]
+    if dim < 3 and form == "sparse-band":
+        form = "sparse-diag"
+    if dim < 2 and form == "sparse-diag":
+        form = "diag"            # (a 1x1 scipy.sparse matrix is read as a scalar and then fails on .ravel(): not a sensible input)
+    if form in ("scalar", "vector", "diag", "full"):
+        return gen_spec(r, dim, force=(kind, form))
+    if form == "sparse-diag":
+        sp = dict(gen_spec(r, dim, force=(kind, "diag")))
+    else:
+        # sparse banded: SPD tridiagonal for cov/prec/sqrtcov (symmetric: S Sᵀ = Sᵀ S), upper bidiagonal for sqrtprec
+        dg = r.choice([2.0, 3.0, 4.0], size=dim).astype(float)
+        off = r.choice([-1.0, 0.5, 1.0], size=dim - 1).astype(float)
+        val = np.diag(dg) + np.diag(off, 1) + (np.diag(off, -1) if kind != "sqrtprec" else 0.0)
+        Dm = val if kind in ("cov", "prec") else val.T @ val
+        sp = {"kind": kind, "shape": "full", "value": val, "tag": f"{kind}-full",
+              "doc_prec": np.linalg.inv(Dm) if kind in ("cov", "sqrtcov") else Dm}
+    sp["sparse"] = True
+    sp["tag"] = sp["tag"] + "-sparse"
+    return sp
+
+
+def nonzero_mean(r, n):
+    mu = r.randint(-3, 4, size=n).astype(float)
+    if not mu.any():
+        mu[r.randint(n)] = 2.0
+    return mu
+
+
 def history_records(ctx, cuqi, r, thorough):
-    """Posterior(likelihood, prior) built directly; a sampler is built and run; then parameters of the SAME prior / likelihood
-    objects are re-assigned and a new sampler is built on the same posterior: it must sample the posterior of the CURRENT
-    parameters.  Returns records for the common model/oracle pipeline (the second round)."""
-    from cuqi.distribution import Gaussian, GMRF, Posterior
+    """Posterior / MultipleLikelihoodPosterior built directly on ONE prior object and ONE noise object per likelihood (no
+    copies); a sampler is built and USED; then the matrix parameter and/or the mean of the prior and/or of a noise
+    distribution are re-assigned through the setters of the objects the posterior holds (any subset, any order, also to a
+    different storage form incl. scipy.sparse); then the posterior is used again — by a fresh sampler on the same posterior
+    object, or (experimental) by the SAME sampler after reinitialize().  The draw must be that of the CURRENT parameters (full
+    model/oracle pipeline + logd consistency) and equal to that of a freshly built identical problem (`:fresh`)."""
+    from cuqi.distribution import Gaussian, GMRF, Posterior, MultipleLikelihoodPosterior
     from cuqi.model import LinearModel
     out = []
-    nh = 14 if not thorough else 14 * ctx.scale
+    nh = 30 if not thorough else 30 * ctx.scale
+    kinds = ["cov", "prec", "sqrtcov", "sqrtprec"]
     for c in range(nh):
-        n = int(r.randint(2, 6)); m = int(r.randint(n, n + 3))
+        n = int(r.randint(2, 6))
         iface = ["exp", "legacy"][c % 2]
-        A = r.randint(-2, 3, size=(m, n)).astype(float) + np.vstack([np.eye(n) * 3.0, np.zeros((m - n, n))])
-        d = (r.randint(-6, 7, size=m) / 2.0).astype(float)
-        lk = ["cov", "prec", "sqrtcov", "sqrtprec"][r.randint(4)]
-        lsp0 = gen_spec(r, m, force=(lk, ["scalar", "vector", "diag", "full"][r.randint(4)]))
-        ptype = "gmrf" if c % 3 == 0 else "gauss"
-        what = ["prior", "likelihood", "both"][r.randint(3)]
-        form = "tuple" if (iface == "legacy" and c % 4 == 1) else "posterior"
-        if form == "tuple":
-            ptype = "gauss"; lk = "sqrtprec"
-            lsp0 = gen_spec(r, m, force=("sqrtprec", ["vector", "diag", "full"][r.randint(3)]))
-        mean0 = r.randint(-3, 4, size=n).astype(float)
+        form = "tuple" if (iface == "legacy" and c % 6 == 1) else "posterior"
+        k = 1 if form == "tuple" else int(r.choice([1, 1, 2]))
+        ptype = "gmrf" if (c % 4 == 0 and form != "tuple") else "gauss"
+        liks0 = []
+        for i in range(k):
+            m = int(r.randint(n, n + 3)) if i == 0 else int(r.randint(1, n + 2))
+            A = r.randint(-2, 3, size=(m, n)).astype(float)
+            if i == 0:
+                A += np.vstack([np.eye(n) * 3.0, np.zeros((m - n, n))])
+            lk = "sqrtprec" if form == "tuple" else kinds[(c + i) % 4]
+            liks0.append({"m": m, "A": A, "d": (r.randint(-6, 7, size=m) / 2.0).astype(float), "spec": history_spec(r, m, lk) if form != "tuple"
+                          else gen_spec(r, m, force=("sqrtprec", ["vector", "diag", "full"][r.randint(3)]))})
+        mean0 = nonzero_mean(r, n)
         if ptype == "gmrf":
             pr0 = {"type": "gmrf", "order": int(r.choice([1, 2])), "bc": "zero", "prec": float(r.choice([0.25, 1.0, 4.0])), "mean": mean0}
             pr0["tag"] = f"gmrf-order{pr0['order']}-zero"
         else:
-            pk = "sqrtprec" if form == "tuple" else ["cov", "prec", "sqrtcov", "sqrtprec"][r.randint(4)]
-            psp0 = gen_spec(r, n, force=(pk, ["vector", "diag", "full"][r.randint(3)]))
+            pk = "sqrtprec" if form == "tuple" else kinds[(c // 2) % 4]     # every parameterisation in turn
+            psp0 = history_spec(r, n, pk) if form != "tuple" else gen_spec(r, n, force=(pk, ["vector", "diag", "full"][r.randint(3)]))
             pr0 = {"type": "gauss", "spec": psp0, "mean": mean0, "tag": psp0["tag"]}
-        cfg0 = {"n": n, "iface": iface, "backing": "matrix", "target": form, "tuple_model": "LinearModel",
-                "liks": [{"m": m, "A": A, "d": d, "spec": lsp0}], "prior": pr0}
-        # the re-assigned parameters
-        cfg1 = {**cfg0, "liks": [dict(cfg0["liks"][0])], "prior": dict(pr0)}
-        if what in ("likelihood", "both"):
-            cfg1["liks"][0]["spec"] = gen_spec(r, m, force=(lk, ["scalar", "vector", "diag", "full"][r.randint(4)]))
-        if what in ("prior", "both"):
-            cfg1["prior"]["mean"] = r.randint(-3, 4, size=n).astype(float)
-            if ptype == "gmrf":
-                cfg1["prior"]["prec"] = float(r.choice([0.5, 2.0, 8.0, 16.0]))
+        cfg0 = {"n": n, "iface": iface, "backing": "matrix", "target": form if form == "tuple" else ("posterior" if k == 1 else "multiple"),
+                "tuple_model": "LinearModel", "liks": liks0, "prior": pr0}
+        # ---- the setter operations, in the order they are applied
+        cand = [("prior", "matrix"), ("prior", "mean")] + [(f"noise{i}", "matrix") for i in range(k)]
+        nops = int(r.choice([1, 1, 2, 3]))
+        ops = [cand[j] for j in r.permutation(len(cand))[:nops]]
+        if c % 3 == 0:
+            ops = [("prior", "matrix")]          # the matrix alone (mean untouched): caches keyed on the mean survive
+        if form == "tuple":
+            ops = [("prior", "matrix"), ("prior", "mean"), ("noise0", "matrix")]
+        cfg1 = {**cfg0, "liks": [dict(l) for l in liks0], "prior": dict(pr0)}
+        for who, what in ops:
+            if who == "prior" and what == "mean":
+                cfg1["prior"]["mean"] = nonzero_mean(r, n)
+            elif who == "prior":
+                if ptype == "gmrf":
+                    cfg1["prior"]["prec"] = float(r.choice([0.5, 2.0, 8.0, 16.0]))
+                else:
+                    kd = pr0["spec"]["kind"]
+                    sp_new = history_spec(r, n, kd) if form != "tuple" else gen_spec(r, n, force=(kd, ["vector", "diag", "full"][r.randint(3)]))
+                    cfg1["prior"]["spec"] = sp_new; cfg1["prior"]["tag"] = sp_new["tag"]
             else:
-                sp_new = gen_spec(r, n, force=(pr0["spec"]["kind"], ["vector", "diag", "full"][r.randint(3)]))
-                cfg1["prior"]["spec"] = sp_new; cfg1["prior"]["tag"] = sp_new["tag"]
-        cfg1["history"] = {"reassigned": what, "round1": {"lik": np.asarray(lsp0["value"]).tolist(),
-                                                          "prior": (pr0["prec"] if ptype == "gmrf" else np.asarray(pr0["spec"]["value"]).tolist()),
-                                                          "prior_mean": mean0.tolist()}}
-        key = f"history:{what}:" + cfg_key(cfg1)
-        rec = {"cfg": cfg1, "key": key, "desc": cfg_desc(cfg1),
-               "gmrfP": gmrf_precision(cuqi, cfg1["prior"], n) if ptype == "gmrf" else None}
+                i = int(who[5:])
+                kd = liks0[i]["spec"]["kind"]
+                cfg1["liks"][i]["spec"] = history_spec(r, liks0[i]["m"], kd) if form != "tuple" else gen_spec(r, liks0[i]["m"], force=(kd, ["vector", "diag", "full"][r.randint(3)]))
+        reuse = "reinitialize" if (iface == "exp" and c % 4 in (0, 2) and form != "tuple") else "fresh-sampler"
+        cfg1["history"] = {"reassigned": [f"{a}.{b}" for a, b in ops], "second_use": reuse,
+                           "round1": {"noise": [np.asarray(l["spec"]["value"]).tolist() for l in liks0],
+                                      "prior": (pr0["prec"] if ptype == "gmrf" else np.asarray(pr0["spec"]["value"]).tolist()),
+                                      "prior_mean": mean0.tolist()}}
+        key = "history:" + "+".join(f"{a}.{b}" for a, b in ops) + f":{reuse}:" + cfg_key(cfg1)
+        gP1 = gmrf_precision(cuqi, cfg1["prior"], n) if ptype == "gmrf" else None
+        try:   # the property presupposes a proper, reasonably conditioned posterior
+            if np.linalg.cond(np.linalg.inv(doc_moments(cfg1, gP1)[1])) > 1e5 or \
+               np.linalg.cond(np.linalg.inv(doc_moments(cfg0, gmrf_precision(cuqi, pr0, n) if ptype == "gmrf" else None)[1])) > 1e5:
+                continue
+        except np.linalg.LinAlgError:
+            continue
+        rec = {"cfg": cfg1, "key": key, "desc": cfg_desc(cfg1), "gmrfP": gP1}
+        maxit, tol = maxit_for(n), 1e-13
         try:
             with quiet():
                 if form == "tuple":
-                    Amod = LinearModel(A.copy())
-                    t1 = (d.copy(), Amod, lsp0["value"], mean0, pr0["spec"]["value"])
-                    r1 = StepRunner(cuqi, cfg0, t1, maxit=maxit_for(n), tol=1e-13)
+                    Amod = LinearModel(liks0[0]["A"].copy())
+                    t1 = (liks0[0]["d"].copy(), Amod, liks0[0]["spec"]["value"], mean0, pr0["spec"]["value"])
+                    r1 = StepRunner(cuqi, cfg0, t1, maxit=maxit, tol=tol)
                     r1.chain([r.randn(r1.N) for _ in range(2)], np.zeros(n))
-                    target = (d.copy(), Amod, cfg1["liks"][0]["spec"]["value"], cfg1["prior"]["mean"], cfg1["prior"]["spec"]["value"])
+                    target = (liks0[0]["d"].copy(), Amod, cfg1["liks"][0]["spec"]["value"], cfg1["prior"]["mean"], cfg1["prior"]["spec"]["value"])
                     post = None
+                    runner = StepRunner(cuqi, cfg1, target, maxit=maxit, tol=tol)
                 else:
                     if ptype == "gmrf":
                         x = GMRF(mean0.copy(), pr0["prec"], bc_type="zero", order=pr0["order"], name="x")
                     else:
-                        x = Gaussian(mean=mean0.copy(), name="x", **spec_kwargs(pr0["spec"]))
-                    y = Gaussian(mean=LinearModel(A.copy())(x), name="y0", **spec_kwargs(lsp0))
-                    post = Posterior(y.to_likelihood(d), x)
-                    r1 = StepRunner(cuqi, cfg0, post, maxit=maxit_for(n), tol=1e-13)
+                        x = Gaussian(mean=mean0.copy(), name="x", **{pr0["spec"]["kind"]: obj_value(pr0["spec"])})
+                    ys = [Gaussian(mean=LinearModel(l["A"].copy())(x), name=f"y{i}", **{l["spec"]["kind"]: obj_value(l["spec"])})
+                          for i, l in enumerate(liks0)]
+                    lks = [y.to_likelihood(l["d"]) for y, l in zip(ys, liks0)]
+                    post = Posterior(lks[0], x) if k == 1 else MultipleLikelihoodPosterior(*(lks + [x]))
+                    # ---- first use
+                    r1 = StepRunner(cuqi, cfg0, post, maxit=maxit, tol=tol)
                     first = r1.chain([np.zeros(r1.N), r.randn(r1.N)], np.zeros(n))[0]
                     m_first = doc_moments(cfg0, gmrf_precision(cuqi, pr0, n) if ptype == "gmrf" else None)[0]
                     if relerr(first, m_first) > TOL:
                         ctx.fail(key + ":round1", rec["desc"], m_first.tolist(), first.tolist(), "first sampler (before any re-assignment) is off")
-                    # ---- re-assign on the objects the posterior holds
-                    if what in ("likelihood", "both"):
-                        setattr(post.likelihood.distribution, lk, cfg1["liks"][0]["spec"]["value"])
-                    if what in ("prior", "both"):
-                        post.prior.mean = cfg1["prior"]["mean"].copy()
-                        if ptype == "gmrf":
-                            post.prior.prec = cfg1["prior"]["prec"]
+                    # ---- re-assignment through the setters of the objects the posterior holds
+                    pdists = [post.likelihood.distribution] if k == 1 else [l_.distribution for l_ in post.likelihoods]
+                    for who, what in ops:
+                        if who == "prior" and what == "mean":
+                            post.prior.mean = cfg1["prior"]["mean"].copy()
+                        elif who == "prior":
+                            if ptype == "gmrf":
+                                post.prior.prec = cfg1["prior"]["prec"]
+                            else:
+                                setattr(post.prior, pr0["spec"]["kind"], obj_value(cfg1["prior"]["spec"]))
                         else:
-                            setattr(post.prior, pr0["spec"]["kind"], cfg1["prior"]["spec"]["value"])
-                    target = post
-                runner = StepRunner(cuqi, cfg1, target, maxit=maxit_for(n), tol=1e-13)
+                            i = int(who[5:])
+                            setattr(pdists[i], liks0[i]["spec"]["kind"], obj_value(cfg1["liks"][i]["spec"]))
+                    # ---- second use
+                    if reuse == "reinitialize":
+                        r1.s.reinitialize()
+                        runner = StepRunner(cuqi, cfg1, post, maxit=maxit, tol=tol, sampler=r1.s)
+                    else:
+                        runner = StepRunner(cuqi, cfg1, post, maxit=maxit, tol=tol)
                 rec["impl"] = read_affine(runner, r, n)
                 rec["leaf"] = leaf_factors(runner)
                 rec["chain"] = (runner.chain_draws, runner.chain_states)
                 rec["M_callable"] = callable(runner.s.M)
+                # ---- a freshly built identical problem (new objects, current parameter values)
+                cfg_f = {**cfg1, "target": "tuple" if form == "tuple" else cfg1["target"]}
+                tf, _, _ = build_target_objs(cuqi, cfg_f)
+                rf = StepRunner(cuqi, cfg_f, tf, maxit=maxit, tol=tol)
+                mf = rf.step(np.zeros(rf.N), np.zeros(n))
+                Bf = np.column_stack([rf.step(np.eye(rf.N)[j], np.zeros(n)) - mf for j in range(rf.N)])
+            if relerr(rec["impl"][0], mf) > TOL or relerr(rec["impl"][1], Bf) > TOL:
+                ctx.fail(key + ":fresh", rec["desc"], {"offset": mf.tolist()}, {"offset": rec["impl"][0].tolist()},
+                         "after re-assignment through the setters the draw differs from that of a freshly built identical problem (stale cached quantity)")
             if post is not None:
                 logd_oracle(ctx, key, rec["desc"], post, rec["impl"][0], rec["impl"][1], r)
         except Exception as ex:
@@ -956,6 +1043,15 @@ def history_records(ctx, cuqi, r, thorough):
         out.append(rec)
     return out
 
+
+def build_target_objs(cuqi, cfg):
+    """build_target with sparse storage forms honoured"""
+    cfg2 = {**cfg, "liks": [{**l, "spec": {**l["spec"], "value": obj_value(l["spec"])}} for l in cfg["liks"]], "prior": dict(cfg["prior"])}
+    if cfg2["prior"]["type"] == "gauss":
+        cfg2["prior"]["spec"] = {**cfg["prior"]["spec"], "value": obj_value(cfg["prior"]["spec"])}
+    if cfg2["target"] == "tuple":
+        cfg2["tuple_model"] = "LinearModel"
+    return build_target(cuqi, cfg2)
 
 
 # ----------------------------------------------------------------------------- configuration histories of the SAMPLER object
